@@ -741,3 +741,140 @@ def _pieces(atom):
     """innermost named entities of an atom string such as div(L[x] + -1*L[y],16)"""
     import re
     return re.findall(r"L\[[^\[\]]*(?:\[[^\[\]]*\][^\[\]]*)*\]|\b[A-Za-z_][A-Za-z_0-9]*\b(?!\()", atom)
+
+
+# ---- R4f: writes into fixed-size character buffers stay inside ---------------------------------------------------------------
+
+def _edge_conditions(f, pb, tb):
+    """conditions known on the edge pb -> tb: those controlling pb, plus pb's own branch when tb is one side of it"""
+    from .r5 import _controlling_conditions
+    out = list(_controlling_conditions(f, pb))
+    t = f.bmap[pb].term
+    if t is not None and t.op == "br" and len(t.ops) == 3 and t.ops[1]["v"] != t.ops[2]["v"]:
+        c = f.inst(t.ops[0])
+        pol = (t.ops[2]["v"] == tb)       # ops: cond, false-dest, true-dest
+        while c is not None and c.op == "xor" and c.ty == "i1":
+            c = f.inst(c.ops[0])
+            pol = not pol
+        if c is not None and c.op == "icmp" and tb in (t.ops[1]["v"], t.ops[2]["v"]):
+            out.append((c, pol))
+    return out
+
+
+def _ub_from_conditions(f, v, conds):
+    """smallest upper bound of the (unsigned) value v implied by conditions `v REL constant'"""
+    best = None
+    vid = strip_int_casts(f, v)
+    for (c, pol) in conds:
+        for (x, y, flip) in ((0, 1, False), (1, 0, True)):
+            if strip_int_casts(f, c.ops[x]) != vid:
+                continue
+            k = const_int(c.ops[y])
+            if k is None:
+                continue
+            pr = c.d["pred"]
+            if pr[0] not in "us" or pr in ("eq", "ne"):
+                if pr == "eq" and pol:
+                    best = k if best is None else min(best, k)
+                continue
+            rel = pr[1:]
+            if flip:
+                rel = {"lt": "gt", "gt": "lt", "le": "ge", "ge": "le"}[rel]
+            if not pol:
+                rel = {"lt": "ge", "ge": "lt", "gt": "le", "le": "gt"}[rel]
+            b = k - 1 if rel == "lt" else (k if rel == "le" else None)
+            if b is not None:
+                best = b if best is None else min(best, b)
+    return best
+
+
+def upper_bound(f, op, block, conds=None, depth=0):
+    """an upper bound of the unsigned value `op' as seen in `block' (None: unknown)"""
+    from .r5 import _controlling_conditions
+    if conds is None:
+        conds = _controlling_conditions(f, block)
+    k = const_int(op)
+    if k is not None:
+        return k
+    o = strip_int_casts(f, op)
+    i = f.inst(o)
+    direct = _ub_from_conditions(f, o, conds)
+    if i is None or depth > 6:
+        return direct
+    res = None
+    if i.op == "phi":
+        bs = []
+        for (v, pb) in i.d["incoming"]:
+            if v.get("k") == "undef":
+                continue
+            bs.append(upper_bound(f, v, pb, _edge_conditions(f, pb, i.block.name), depth + 1))
+        res = None if (not bs or any(b is None for b in bs)) else max(bs)
+    elif i.op == "select":
+        c = f.inst(i.ops[0])
+        ca = list(conds) + ([(c, True)] if c is not None and c.op == "icmp" else [])
+        cb = list(conds) + ([(c, False)] if c is not None and c.op == "icmp" else [])
+        a, b = upper_bound(f, i.ops[1], block, ca, depth + 1), upper_bound(f, i.ops[2], block, cb, depth + 1)
+        res = None if (a is None or b is None) else max(a, b)
+    elif i.op in ("add", "sub") and const_int(i.ops[1]) is not None:
+        a = upper_bound(f, i.ops[0], block, conds, depth + 1)
+        k = const_int(i.ops[1])
+        if a is not None and (i.op == "add" or a >= k):
+            res = a + k if i.op == "add" else a - k
+    if res is None:
+        return direct
+    return res if direct is None else min(res, direct)
+
+
+WRITERS = {"strncpy": (0, 2), "memcpy": (0, 2), "memmove": (0, 2), "memset": (0, 2), "snprintf": (0, 1), "vsnprintf": (0, 1),
+           "llvm.memcpy.p0i8.p0i8.i64": (0, 2), "llvm.memset.p0i8.i64": (0, 2), "llvm.memmove.p0i8.p0i8.i64": (0, 2)}
+
+
+def rule_R4f(ctx, rep, config="c-lib"):
+    rep.rule("R4f", "writes into fixed-size character buffers (local arrays, array members of the grammar object) stay inside: an element store has an index whose upper "
+                    "bound -- constants, `?:' and merged values, and the comparisons with constants on the way -- is below the size; strncpy / memcpy / memset / "
+                    "(v)snprintf get a length whose upper bound is not above the size (formatted writes without a size are judged by R4a)")
+    p = ctx.prog(config)
+    n = 0
+    for f in p.m.defined():
+        for i in f.all_insts():
+            if i.op == "store":
+                pa = resolve_addr(f, i.ops[1])
+                if not pa.steps or pa.steps[-1][0] != "idx":
+                    continue
+                size, name = _buffer_size(p, f, i.ops[1]) if pa.root[0] == "alloca" or pa.last_field() else (None, None)
+                if size is None:
+                    continue
+                # the index into the array itself (the last step), lower steps are the struct path
+                idx = pa.steps[-1][1]
+                n += 1
+                rep.cover(p, [f.name])
+                key = "%s/%s[index]#%d" % (f.name, name, n)
+                b = upper_bound(f, idx, i.block.name)
+                if b is not None and b < size:
+                    rep.ok("R4f", key, sample={"store": i.where(), "index_at_most": b, "size": size})
+                else:
+                    rep.violation("R4f", key, "%s has %d elements and is written at an index that %s: a write behind the buffer (for a local buffer: into the frame of "
+                                  "the function)" % (name, size, ("can be %d" % b) if b is not None else "is not bounded by a comparison with a constant"),
+                                  where=i.where(), witness=[i.where()])
+            elif i.is_call() and (i.callee in WRITERS):
+                d, ln = WRITERS[i.callee]
+                if len(i.args) <= ln:
+                    continue
+                pa = resolve_addr(f, i.args[d])
+                if pa.root[0] != "alloca" and not pa.last_field():
+                    continue
+                size, name = _buffer_size(p, f, i.args[d])
+                if size is None:
+                    continue
+                if any(s[0] == "idx" and const_int(s[1]) != 0 for s in pa.steps):
+                    continue    # a write into the middle of the buffer: not judged here
+                n += 1
+                rep.cover(p, [f.name])
+                key = "%s/%s(%s)#%d" % (f.name, i.callee.split(".")[1] if i.callee.startswith("llvm.") else i.callee, name, n)
+                b = upper_bound(f, i.args[ln], i.block.name)
+                if b is not None and b <= size:
+                    rep.ok("R4f", key, sample={"call": i.where(), "length_at_most": b, "size": size})
+                else:
+                    rep.violation("R4f", key, "%s writes %s bytes into %s of %d bytes" % (i.callee, ("up to %d" % b) if b is not None else "an unbounded number of", name, size),
+                                  where=i.where(), witness=[i.where()])
+    rep.floor("R4f", "writes into fixed-size character buffers", n, 3)
